@@ -55,10 +55,10 @@ class TracedStream:
     def read(self, n=-1):
         p0 = self.pos
         fk = self._enter("read")
-        if fk == "raise":
+        if fk in ("raise", "raisev"):
             self.fault_delivered = True
             self._rec("read", n, "OSError", p0)
-            raise OSError("injected read failure")
+            raise (OSError("injected read failure") if fk == "raise" else ValueError("I/O operation on closed file (injected)"))
         if n is None or n < 0:
             data = bytes(self.buf[self.pos:])
         else:
@@ -73,10 +73,10 @@ class TracedStream:
     def write(self, data):
         p0 = self.pos
         fk = self._enter("write")
-        if fk == "raise":
+        if fk in ("raise", "raisev"):
             self.fault_delivered = True
             self._rec("write", len(data), "OSError", p0)
-            raise OSError("injected write failure")
+            raise (OSError("injected write failure") if fk == "raise" else ValueError("I/O operation on closed file (injected)"))
         data = bytes(data)
         if fk == "short" and len(data) >= 1:
             self.fault_delivered = True
@@ -94,10 +94,10 @@ class TracedStream:
         fk = self._enter("seek")
         if fk == "noseek":
             self._noseek = True
-        if fk == "raise" or self._noseek:
+        if fk in ("raise", "raisev") or self._noseek:
             self.fault_delivered = True
             self._rec("seek", (off, whence), "OSError", p0)
-            raise (OSError("injected seek failure") if fk == "raise" else io.UnsupportedOperation("not seekable"))
+            raise (OSError("injected seek failure") if fk == "raise" else ValueError("closed file (injected)") if fk == "raisev" else io.UnsupportedOperation("not seekable"))
         if whence == 0:
             new = off
         elif whence == 1:
@@ -117,10 +117,10 @@ class TracedStream:
         fk = self._enter("tell")
         if fk == "notell":
             self._notell = True
-        if fk == "raise" or self._notell:
+        if fk in ("raise", "raisev") or self._notell:
             self.fault_delivered = True
             self._rec("tell", None, "OSError", self.pos)
-            raise (OSError("injected tell failure") if fk == "raise" else io.UnsupportedOperation("not tellable"))
+            raise (OSError("injected tell failure") if fk == "raise" else ValueError("closed file (injected)") if fk == "raisev" else io.UnsupportedOperation("not tellable"))
         self._rec("tell", None, self.pos, self.pos)
         return self.pos
 
@@ -141,8 +141,8 @@ class TracedStream:
 
 
 FAULT_KINDS = {
-    "read": ("raise", "short"),
-    "write": ("raise", "short"),
-    "seek": ("raise", "noseek"),
-    "tell": ("raise", "notell"),
+    "read": ("raise", "raisev", "short"),
+    "write": ("raise", "raisev", "short"),
+    "seek": ("raise", "raisev", "noseek"),
+    "tell": ("raise", "raisev", "notell"),
 }
